@@ -333,3 +333,19 @@ Definition once_as_timing (x : pyonce) : res pytiming :=
 Definition tagjob_mem (x : pytagjob) (l : list pytagjob) : bool := existsb (fun y => Nat.eqb (ptj_id y) (ptj_id x)) l.
 Definition tagjob_remove (x : pytagjob) (l : list pytagjob) : list pytagjob := filter (fun y => negb (Nat.eqb (ptj_id y) (ptj_id x))) l.
 Definition tagjob_diff (a b : list pytagjob) : list pytagjob := filter (fun y => negb (tagjob_mem y b)) a.
+
+(* ---- Job objects by identity: a heap of their scheduling states, and a set of identities -------------- *)
+Fixpoint heap_get (h : list (nat * pyjobstate)) (id : nat) : res pyjobstate :=
+  match h with
+  | [] => Err OtherError
+  | (k, v) :: t => if Nat.eqb k id then Ok v else heap_get t id
+  end.
+Fixpoint heap_set (h : list (nat * pyjobstate)) (id : nat) (v : pyjobstate) : list (nat * pyjobstate) :=
+  match h with
+  | [] => []
+  | (k, w) :: t => if Nat.eqb k id then (k, v) :: t else (k, w) :: heap_set t id v
+  end.
+Definition idset_discard (id : nat) (l : list nat) : list nat := filter (fun k => negb (Nat.eqb k id)) l.
+(* for x in l: state = body(state, x), stopping at the first exception *)
+Fixpoint foldM {S A} (f : S -> A -> res S) (l : list A) (s : S) : res S :=
+  match l with [] => Ok s | x :: r => bind (f s x) (foldM f r) end.
